@@ -83,6 +83,8 @@ static void doStep(State &S, const mj::Value &st) {
     S.pools[x].resize((occa::udim_t) n * S.cell);
   } else if (a == "shrink") {
     S.pools[x].shrinkToFit();
+  } else if (a == "align") {
+    S.pools[x].setAlignment((occa::udim_t) n);
   } else if (a == "freePool") {
     S.pools[x].free();
     S.pools.erase(x);
